@@ -85,20 +85,20 @@ Init ==
   /\ pend = <<>>
   /\ hist = <<>>
 
-IAttach ==
+JAttach ==
   /\ ~att
   /\ att' = TRUE /\ cur' = 1 /\ off' = Len(secs[1].mem)
   /\ last' = Last("Attach", "Ok", 0, 0)
   /\ Note([op |-> "Attach", r |-> "Ok", app |-> <<>>, h |-> <<"Attach">>])
   /\ UNCHANGED <<arch, opt, secs, labs, slots, nrel, nfix, pend>>
 
-IDetached(op) ==
+JDetached(op) ==
   /\ ~att
   /\ last' = Last(op, "NotInitialized", 0, 0)
   /\ Note([op |-> "Detached", dop |-> op, r |-> "NotInitialized", app |-> <<>>, h |-> <<"Detached", op>>])
   /\ UNCHANGED <<arch, opt, att, secs, cur, off, labs, slots, nrel, nfix, pend>>
 
-ISetOpt(on) ==
+JSetOpt(on) ==
   /\ att /\ on # opt
   /\ opt' = on
   /\ last' = Last("SetOpt", "Ok", 0, 0)
@@ -124,7 +124,7 @@ AlignResult(mode, a) ==
                           THEN [r |-> "InvalidState", app |-> <<>>, cap |-> es.cap]
                           ELSE [r |-> "Ok", cap |-> es.cap, app |-> Repeat(A64Nop, i \div 4)]
                    ELSE [r |-> "Ok", cap |-> es.cap, app |-> Rep(0, i)]
-IAlign(mode, a) ==
+JAlign(mode, a) ==
   LET res == AlignResult(mode, a) IN
   /\ att
   /\ IWrite(res.app, res.cap)
@@ -134,7 +134,7 @@ IAlign(mode, a) ==
   /\ UNCHANGED <<arch, opt, att, cur, labs, nrel, nfix, pend>>
 
 (* ---- BaseAssembler::embed ---- *)
-IEmbed(data) ==
+JEmbed(data) ==
   LET es == EnsureSpace(Len(data))
       ok == data = <<>> \/ es.err = "Ok"
       app == IF ok THEN data ELSE <<>>
@@ -163,7 +163,7 @@ ArrayResult(tid, item, ic, rc) ==
      ELSE LET es == EnsureSpace(WVal(tot)) IN
           IF es.err # "Ok" THEN [r |-> es.err, app |-> <<>>, cap |-> es.cap]
           ELSE [r |-> "Ok", cap |-> es.cap, app |-> Repeat(data, IF WSmall(rc) THEN WVal(rc) ELSE 0)]
-IEmbedArray(tid, item, ic, rc) ==
+JEmbedArray(tid, item, ic, rc) ==
   LET res == ArrayResult(tid, item, ic, rc) IN
   /\ att
   /\ IWrite(res.app, res.cap)
@@ -175,7 +175,7 @@ IEmbedArray(tid, item, ic, rc) ==
 
 (* ---- bind (BaseAssembler::bind -> CodeHolder::bind_label) ---- *)
 BindResult(l) == IF ~LabelValid(l) THEN "InvalidLabel" ELSE IF IsBound(l) THEN "LabelAlreadyBound" ELSE "Ok"
-IBind(l) ==
+JBind(l) ==
   LET r == BindResult(l) IN
   /\ att
   /\ IF r = "Ok" THEN /\ labs' = [labs EXCEPT ![l] = BoundAt(cur, off)]
@@ -186,7 +186,7 @@ IBind(l) ==
   /\ Note([op |-> "Bind", l |-> l, r |-> r, app |-> <<>>, h |-> <<"Bind", l>>])
   /\ UNCHANGED <<arch, opt, att, secs, cur, off, slots, nrel>>
 
-INewLabel ==
+JNewLabel ==
   /\ att /\ Len(labs) < MaxLabels
   /\ labs' = Append(labs, Unbound)
   /\ pend' = Append(pend, 0)
@@ -195,7 +195,7 @@ INewLabel ==
   /\ UNCHANGED <<arch, opt, att, secs, cur, off, slots, nrel, nfix>>
 
 (* ---- BaseAssembler::embed_const_pool: align(kData, pool.alignment()); bind(label); ensure_space; fill ---- *)
-IEmbedConstPool(l, pool) ==
+JEmbedConstPool(l, pool) ==
   LET palign == pool[1]
       image == pool[2]
       al == AlignResult(ModeData, palign)
@@ -233,7 +233,7 @@ IEmbedConstPool(l, pool) ==
      /\ UNCHANGED <<arch, opt, att, cur, nrel>>
 
 (* ---- BaseAssembler::embed_label ---- *)
-IEmbedLabel(l, sz) ==
+JEmbedLabel(l, sz) ==
   LET ds == IF sz = 0 THEN RegSize ELSE sz
       es == EnsureSpace(ds)
       c == [op |-> "EmbedLabel", l |-> l, sz |-> sz, h |-> <<"EmbedLabel", l, sz>>]
@@ -256,7 +256,7 @@ IEmbedLabel(l, sz) ==
      /\ UNCHANGED <<arch, opt, att, cur, labs>>
 
 (* ---- BaseAssembler::embed_label_delta ---- *)
-IEmbedLabelDelta(l, b, sz) ==
+JEmbedLabelDelta(l, b, sz) ==
   LET ds == IF sz = 0 THEN RegSize ELSE sz
       es == EnsureSpace(ds)
       c == [op |-> "EmbedLabelDelta", l |-> l, b |-> b, sz |-> sz, h |-> <<"EmbedLabelDelta", l, b, sz>>]
@@ -285,7 +285,7 @@ IEmbedLabelDelta(l, b, sz) ==
      /\ UNCHANGED <<arch, opt, att, cur, labs, nfix, pend>>
 
 (* ---- BaseAssembler::set_offset ---- *)
-ISetOffset(o) ==
+JSetOffset(o) ==
   LET size == Max(Len(secs[cur].mem), off)
       limit == IF Bug = "setOffsetCap" THEN secs[cur].cap ELSE size
       r == IF o > limit THEN "InvalidArgument" ELSE "Ok"
@@ -296,14 +296,14 @@ ISetOffset(o) ==
      /\ UNCHANGED <<arch, opt, att, secs, cur, labs, slots, nrel, nfix, pend>>
 
 (* ---- sections ---- *)
-INewSection(kind, capreq) ==
+JNewSection(kind, capreq) ==
   /\ att /\ Len(secs) < MaxSecs
   /\ secs' = Append(secs, [mem |-> <<>>, cap |-> IF kind = "dyn" THEN 0 ELSE capreq, fixed |-> kind = "fix"])
   /\ last' = Last("NewSection", "Ok", 0, 0)
   /\ Note([op |-> "NewSection", kind |-> kind, capreq |-> capreq, r |-> "Ok", app |-> <<>>, h |-> <<"NewSection", kind, capreq>>])
   /\ UNCHANGED <<arch, opt, att, cur, off, labs, slots, nrel, nfix, pend>>
 
-ISection(s) ==
+JSection(s) ==
   LET r == IF s \in 1 .. Len(secs) THEN "Ok" ELSE "InvalidSection" IN
   /\ att
   /\ IF r = "Ok" THEN cur' = s /\ off' = Len(secs[s].mem) ELSE UNCHANGED <<cur, off>>
@@ -311,7 +311,7 @@ ISection(s) ==
   /\ Note([op |-> "Section", s |-> s, r |-> r, app |-> <<>>, h |-> <<"Section", s>>])
   /\ UNCHANGED <<arch, opt, att, secs, labs, slots, nrel, nfix, pend>>
 
-IReserve(s, n) ==
+JReserve(s, n) ==
   LET r == IF n <= secs[s].cap THEN "Ok" ELSE IF secs[s].fixed THEN "TooLarge" ELSE "Ok"
       c == IF n <= secs[s].cap \/ secs[s].fixed THEN secs[s].cap ELSE n
   IN /\ att /\ s \in 1 .. Len(secs)
@@ -321,7 +321,7 @@ IReserve(s, n) ==
      /\ UNCHANGED <<arch, opt, att, cur, off, labs, slots, nrel, nfix, pend>>
 
 (* ---- an instruction: x86 `ret` (ensure_space(16)), AArch64 `ret` (ensure_space(4)) ---- *)
-IInst ==
+JInst ==
   LET es == EnsureSpace(IF IsX86 THEN 16 ELSE 4)
       app == IF es.err # "Ok" THEN <<>> ELSE IF IsX86 THEN <<195>> ELSE <<192, 3, 95, 214>>
   IN /\ att
@@ -331,18 +331,37 @@ IInst ==
      /\ Note([op |-> "Inst", r |-> es.err, app |-> app, h |-> <<"Inst">>])
      /\ UNCHANGED <<arch, opt, att, cur, labs, nrel, nfix, pend>>
 
-IComment ==
+JComment ==
   /\ att
   /\ last' = Last("Comment", "Ok", 0, 0)
   /\ Note([op |-> "Comment", r |-> "Ok", app |-> <<>>, h |-> <<"Comment">>])
   /\ UNCHANGED <<arch, opt, att, secs, cur, off, labs, slots, nrel, nfix, pend>>
 
+(* the bound on the history length first, so that TLC does not expand calls it will not take *)
+G == Len(hist) < MaxOps
+IAttach == G /\ JAttach
+IDetached(op) == G /\ JDetached(op)
+ISetOpt(on) == G /\ JSetOpt(on)
+IAlign(m, a) == G /\ JAlign(m, a)
+IEmbed(d) == G /\ JEmbed(d)
+IEmbedArray(t, item, ic, rc) == G /\ JEmbedArray(t, item, ic, rc)
+IBind(l) == G /\ JBind(l)
+INewLabel == G /\ JNewLabel
+IEmbedConstPool(l, pl) == G /\ JEmbedConstPool(l, pl)
+IEmbedLabel(l, sz) == G /\ JEmbedLabel(l, sz)
+IEmbedLabelDelta(l, b, sz) == G /\ JEmbedLabelDelta(l, b, sz)
+ISetOffset(o) == G /\ JSetOffset(o)
+INewSection(k, c) == G /\ JNewSection(k, c)
+ISection(s) == G /\ JSection(s)
+IReserve(s, n) == G /\ JReserve(s, n)
+IInst == G /\ WithInst /\ JInst
+IComment == G /\ WithInst /\ JComment
+
 (* the array handed to embed_data_array: item_count items of the type's size, bytes 1, 2, 3 ... *)
 ItemOf(t) == LET ts == TypeSize(Deabstract(t)) IN IF ts = 0 THEN <<1>> ELSE [i \in 1 .. ts |-> i]
 
 Next ==
-  /\ Len(hist) < MaxOps
-  /\ \/ IAttach
+     \/ IAttach
      \/ \E op \in {"align", "embed", "embed_data_array", "embed_const_pool", "embed_label", "embed_label_delta",
                    "bind", "set_offset", "comment"} : IDetached(op)
      \/ \E on \in BOOLEAN : ISetOpt(on)
@@ -352,13 +371,14 @@ Next ==
      \/ \E l \in 1 .. MaxLabels + 1, pl \in Pools : IEmbedConstPool(l, pl)
      \/ \E l \in 1 .. MaxLabels + 1, sz \in LabelSizes : IEmbedLabel(l, sz)
      \/ \E l \in 1 .. MaxLabels + 1, b \in 1 .. MaxLabels, sz \in LabelSizes : IEmbedLabelDelta(l, b, sz)
-     \/ (MaxLabels > 0 /\ \E l \in 1 .. MaxLabels + 1 : IBind(l))
+     \/ \E l \in 1 .. MaxLabels + 1 : IBind(l)
      \/ INewLabel
      \/ \E o \in Offsets : ISetOffset(o)
      \/ \E k \in SecKinds, c \in ReserveSizes : INewSection(k, c)
-     \/ (MaxSecs > 1 /\ \E s \in 0 .. MaxSecs : ISection(s))
-     \/ (MaxSecs > 1 /\ \E s \in 1 .. MaxSecs, n \in ReserveSizes : IReserve(s, n))
-     \/ (WithInst /\ (IInst \/ IComment))
+     \/ \E s \in 0 .. MaxSecs : ISection(s)
+     \/ \E s \in 1 .. MaxSecs, n \in ReserveSizes : IReserve(s, n)
+     \/ IInst
+     \/ IComment
 
 Spec == Init /\ [][Next]_ivars
 
@@ -392,5 +412,6 @@ PendSum == LET RECURSIVE S(_)
            IN nfix = S(Len(pend))
 
 View == <<arch, opt, att, secs, cur, off, labs, slots, nrel, nfix, last, pend, Len(hist)>>
-Export == Len(hist) = MaxOps => PrintT(<<"BEH", <<arch, opt>>, hist>>)
+(* one string per behaviour, so that concurrent workers cannot interleave inside a value *)
+Export == Len(hist) = MaxOps => PrintT(<<"BEH", ToString(<<arch, opt, hist>>)>>)
 =============================================================================
